@@ -176,7 +176,15 @@ pub fn decode_case_opt(ctx: &mut RunCtx, fx: &Fixture, o: Obj, bytes: &[u8], wha
         }
         Decoded::Pp(pp) => {
             ctx.st.probe(&format!("{}.accepted", o.name()));
-            strict::params_strict(&pp.to_var_bytes()).map_err(wf)?;
+            let re = pp.to_var_bytes();
+            strict::params_strict(&re).map_err(wf)?;
+            // the format has no length field: what decodes must be exactly what was read
+            if re != bytes {
+                return Err(Violation::new(
+                    "I-wellformed",
+                    format!("faulted public parameters ({}) of {} bytes were accepted as a value that encodes to {} bytes: part of the input was ignored", what, len, re.len()),
+                ));
+            }
             match guarded(|| deploy::compile(&pp, &fx.label, &fx.prog, Route::WithCircuit, env).is_ok()) {
                 Ok(_) => Ok(true),
                 Err(m) => Err(panic_v("compiling with accepted", m)),
@@ -367,7 +375,17 @@ pub fn run(ctx: &mut RunCtx) -> Result<(), Violation> {
                 None => continue,
             }
         } else {
-            let fault = disk::random_fault(&mut f, stored.len(), layouts[oi].as_ref());
+            let mut fault = disk::random_fault(&mut f, stored.len(), layouts[oi].as_ref());
+            if f.chance(1, 8) {
+                // short writes that end just after a section or element boundary
+                let cuts: Vec<usize> = match (o, layouts[oi].as_ref()) {
+                    (Obj::Params, _) => vec![240, 240 + 48, 240 + 96, stored.len() - 48],
+                    (_, Some(l)) => l.sections.iter().flat_map(|(_, off, len)| [*off, off + len]).collect(),
+                    _ => vec![0, stored.len()],
+                };
+                let base = cuts[f.usize(cuts.len())];
+                fault = DiskFault::Truncate((base + f.usize(48)).min(stored.len()));
+            }
             let other = &fx.files[(oi + 1 + f.usize(4)) % 5];
             let b = disk::apply(stored, &fault, Some(&fx.old[oi]), Some(other));
             let desc = match &fault {
